@@ -256,6 +256,8 @@ class Effects:
         c = n.callee
         if c is None:
             return []
+        if "inlined" in n.flags:
+            return []  # a later-introduced helper analysed in place: its statements follow this marker node in fn's own CFG
         if c.kind in ("func", "ctor"):
             return list(c.funcs)
         if c.kind == "param":
